@@ -122,6 +122,7 @@ func (h *threadSafeOpenTunnelClient) CloseSend() error {
 }
 
 func (h *threadSafeOpenTunnelClient) Send(msg *tunnelpb.ClientToServer) error {
+	verifYield("carrier.send.beforeLock")
 	h.sendMu.Lock()
 	defer h.sendMu.Unlock()
 	return h.TunnelService_OpenTunnelClient.Send(msg)
@@ -152,6 +153,7 @@ type threadSafeOpenReverseTunnelServer struct {
 }
 
 func (h *threadSafeOpenReverseTunnelServer) Send(msg *tunnelpb.ClientToServer) error {
+	verifYield("carrier.send.beforeLock")
 	h.sendMu.Lock()
 	defer h.sendMu.Unlock()
 	return h.TunnelService_OpenReverseTunnelServer.Send(msg)
